@@ -5,4 +5,7 @@ CONSTANTS
   MaxHeld = 3
   Bugs = {}
   Depth = 25
+  GHigh = 4
+  GLow = 2
+  Goal = ""
 INVARIANT EmitBehaviour
